@@ -49,8 +49,16 @@ type Broker struct {
 	OnMetadata func(conn int) (leader int32, partErr int16)
 	OnConn     func(conn int) bool // false: refuse (close immediately)
 
-	mu    sync.Mutex
-	nconn int
+	mu      sync.Mutex
+	nconn   int
+	nclosed int // connections that are over (the client hung up, or the broker cut the connection off)
+}
+
+// Conns: connections accepted so far, and how many of them are over.
+func (b *Broker) Conns() (opened, closed int) {
+	b.mu.Lock()
+	defer b.mu.Unlock()
+	return b.nconn, b.nclosed
 }
 
 func (b *Broker) Dial() (net.Conn, int) {
@@ -86,6 +94,13 @@ func wstr(b *bytes.Buffer, s string) { be16(b, int16(len(s))); b.WriteString(s) 
 
 func (b *Broker) serve(c net.Conn, id int) {
 	defer c.Close()
+	defer func() {
+		// the connection is over: the client hung up (the broker's read or write failed) or the broker cut it off.  A
+		// connection the client forgets keeps this goroutine in its read.
+		b.mu.Lock()
+		b.nclosed++
+		b.mu.Unlock()
+	}()
 	if b.OnConn != nil && !b.OnConn(id) {
 		return
 	}
